@@ -482,9 +482,20 @@ impl ProcfsHandle {
                     // If the lookup failed due to ENOENT, and the current
                     // procfs handle is "masked" in some way, try to create a
                     // temporary unmasked handle and retry the operation.
-                    Self::new_unmasked()
+                    let unmasked = match Self::new_unmasked() {
+                        Ok(unmasked) => unmasked,
                         // Use the old error if creating a new handle failed.
-                        .or(Err(err))?
+                        Err(_) => return Err(err),
+                    };
+                    // If we cannot get anything better than what we already
+                    // have (an unprivileged caller on a hidepid= or subset=pid
+                    // /proc ends up with the same masked host /proc), retrying
+                    // cannot change the answer -- and doing it through open()
+                    // would recurse until we run out of file descriptors.
+                    if unmasked.is_subset {
+                        return Err(err);
+                    }
+                    unmasked
                         .open(base, subpath, oflags)
                         .map(OwnedFd::from)
                 } else {
